@@ -100,5 +100,18 @@ def r2(ctx):
             ctx.check('observe|unanswered_polls', S(t) == 'Reach::unanswered_polls(self.reach)', 'observe reports `%s`' % S(t), s.where(), sample=S(t))
 
 
-RULES = [r1, r2]
-FLOORS = {'C11-R1': 9, 'C11-R2': 11}
+def r3(ctx):
+    ctx.rule('C11-R3', '"deny seen since the last usable answer": process_message clears have_deny_rstr_response (= false) on every path, so a '
+             'later unreachable timer resets instead of demobilising')
+    pm = ctx.P.body(SRC + '::process_message')
+    ws = [s for s, w in self_writes(pm) if w == 'have_deny_rstr_response']
+    ok = len(ws) == 1 and written_value(pm, ws[0]) == '0' and blocks_must_pass_block(pm, pm.returns()[0].bb, [ws[0].bb])
+    ctx.check('process_message|clears-deny-flag-on-every-path', ok, 'a usable answer does not always clear the deny marker: a source that saw a deny, then '
+              'answered usably (e.g. over NTPv4), then went silent is demobilised instead of reset', ws[0].where() if ws else None,
+              sample=[written_value(pm, w) for w in ws])
+    t = ctx.P.body(SRC + '::handle_timer')
+    ctx.check('handle_timer|flag-read-only', not [s for s, w in self_writes(t) if w == 'have_deny_rstr_response'], 'handle_timer modifies the deny marker')
+
+
+RULES = [r1, r2, r3]
+FLOORS = {'C11-R1': 9, 'C11-R2': 11, 'C11-R3': 2}
